@@ -591,6 +591,30 @@ func cmdRun(args []string) int {
 			unknown = append(unknown, r)
 		}
 	}
+	// a listed finding that no run of this batch met (a rare one) is replayed from its stored plan,
+	// so that its line is printed whenever it still exists on this tree
+	if os.Getenv("VERIF_REPO") == "" {
+		for i := range known {
+			k := &known[i]
+			if k.Status != "known" || k.Property != *prop || printedKnown[k.Signature] || k.Replay == "" {
+				continue
+			}
+			raw, err := os.ReadFile(filepath.Join(verifDir, k.Replay))
+			if err != nil {
+				continue
+			}
+			var rep struct {
+				Plan *Plan `json:"plan"`
+			}
+			if json.Unmarshal(raw, &rep) != nil || rep.Plan == nil {
+				continue
+			}
+			if r := runPlan(b, rep.Plan, false); r != nil && hasSig(r, k.Signature) {
+				printedKnown[k.Signature] = true
+				fmt.Printf("KNOWN-FINDING: property=%s %s [%s] (not met by this batch; reproduced from %s)\n", k.Property, k.What, k.Signature, k.Replay)
+			}
+		}
+	}
 	if len(a.harness) > 0 {
 		for _, h := range a.harness {
 			fmt.Fprintln(os.Stderr, "vcheck: HARNESS PROBLEM:", h)
